@@ -52,6 +52,7 @@ const (
 	FThunkPanic  = "thunk_panic"        // thunk panics
 	FThunkNil    = "thunk_nil"          // thunk returns nil
 	FThunkBad    = "thunk_badsig"       // a func of the wrong signature
+	FThunkValErr = "thunk_valerr"       // thunk returns (value, error)
 	FWrongKind   = "wrongkind"          // a Go value of the wrong kind for the position
 	FNaN         = "nan"                // NaN for a numeric leaf
 	FBigInt      = "bigint"             // out-of-range integer for Int
@@ -457,6 +458,9 @@ func NewWorld(id string, exts ...graphql.Extension) *World {
 			"name": &graphql.Field{Type: graphql.String},
 			"n":    &graphql.Field{Type: graphql.Int},
 			"tag":  &graphql.Field{Type: graphql.String},
+			// resolver-less fields with arguments: only a source implementing
+			// graphql.FieldResolver sees them
+			"echoArg": &graphql.Field{Type: graphql.Int, Args: graphql.FieldConfigArgument{"x": &graphql.ArgumentConfig{Type: graphql.Int, DefaultValue: 1}, "y": &graphql.ArgumentConfig{Type: graphql.Int}}},
 		},
 	})
 	w.Obj["Plain"] = plain
@@ -492,6 +496,7 @@ func NewWorld(id string, exts ...graphql.Extension) *World {
 			"plainMap": &graphql.Field{Type: plain, Resolve: func(p graphql.ResolveParams) (interface{}, error) {
 				return map[string]interface{}{"name": "map-name", "n": 3, "tag": func() interface{} { return "map-tag-fn" }}, nil
 			}},
+			"plainFR": &graphql.Field{Type: plain, Resolve: func(p graphql.ResolveParams) (interface{}, error) { return plainFieldResolver{}, nil }},
 			// no resolver at all: read from the request's root value by the default resolver
 			"plainRoot":   &graphql.Field{Type: plain},
 			"plainTagged": &graphql.Field{Type: plain, Resolve: func(p graphql.ResolveParams) (interface{}, error) { return plainRecTagged(), nil }},
@@ -659,10 +664,15 @@ func (w *World) resolverInner(coord string) graphql.FieldResolveFn {
 			return nil, nil
 		case FTypedNil:
 			if isLeafNamed(p.Info.ReturnType) {
+				// a typed nil pointer (not of the leaf's own Go type for strings)
+				switch namedOf(p.Info.ReturnType.String()) {
+				case "String", "ID":
+					return (*int)(nil), nil
+				}
 				return (*string)(nil), nil
 			}
 			return (*Tok)(nil), nil
-		case FThunk, FThunkErr, FThunkPanic, FThunkNil:
+		case FThunk, FThunkErr, FThunkPanic, FThunkNil, FThunkValErr:
 			return func() (interface{}, error) {
 				rc.logf("T+" + path)
 				w.gate(rc, "thunk:"+coord, path)
@@ -672,6 +682,9 @@ func (w *World) resolverInner(coord string) graphql.FieldResolveFn {
 					tf = fault
 				}
 				switch tf {
+				case FThunkValErr:
+					rc.fire("T:"+FValErr, path)
+					return val(), fmt.Errorf("thunk boom+val %s", path)
 				case FThunkErr, FErr:
 					rc.fire("T:"+FErr, path)
 					return nil, fmt.Errorf("thunk boom %s", path)
@@ -1025,4 +1038,25 @@ func plainRecTagged() interface{} {
 // NewWorldPossible returns the abstract-type table of the simulated schema.
 func NewWorldPossible() map[string][]string {
 	return map[string][]string{"Node": {"A", "B", "C"}, "U": {"A", "B"}, "Solo": {"B"}}
+}
+
+// plainFieldResolver is a source that resolves its own fields (graphql.FieldResolver)
+// and, like any resolver may, scribbles over the argument map it was handed.
+type plainFieldResolver struct{}
+
+func (plainFieldResolver) Resolve(p graphql.ResolveParams) (interface{}, error) {
+	switch p.Info.FieldName {
+	case "echoArg":
+		x, _ := p.Args["x"].(int)
+		y, _ := p.Args["y"].(int)
+		p.Args["x"] = x + 100
+		p.Args["y"] = y + 100
+		p.Args["seen"] = true
+		return x*1000 + y, nil
+	case "name":
+		return "fr-name", nil
+	case "n":
+		return 9, nil
+	}
+	return "fr-tag", nil
 }
